@@ -268,6 +268,11 @@ class NF(object):
         return 'NF(%s %s %s)' % (' '.join(sorted(self.pfx)), self.mnemo, list(self.ops))
 
 
+_CMPPRED = ['eq', 'lt', 'le', 'unord', 'neq', 'nlt', 'nle', 'ord']
+_CMPALIAS = re.compile(r'^cmp(eq|lt|le|unord|neq|nlt|nle|ord)(ps|pd|ss|sd)$')
+_CLMULALIAS = re.compile(r'^pclmul(lql|hql|lqh|hqh)qdq$')
+
+
 def parse_intel(text, addr=None, length=None, opsize16=False, source='od'):
     """text of one instruction in Intel syntax (objdump's or miasmX's) -> NF.
     addr/length: slot address and instruction length, to turn objdump's branch targets into displacements"""
@@ -301,6 +306,13 @@ def parse_intel(text, addr=None, length=None, opsize16=False, source='od'):
         implied16 = implied16 or ops is None
     if mn == 'int3':
         mn, ops = 'int', [('imm', 3)]
+    # objdump's pseudo-ops for an immediate predicate / selector: the same instruction with the immediate spelled out
+    m = _CMPALIAS.match(mn)
+    if m and source == 'od' and len(ops) == 2:
+        mn, ops = 'cmp' + m.group(2), ops + [('imm', _CMPPRED.index(m.group(1)))]
+    m = _CLMULALIAS.match(mn)
+    if m and source == 'od' and len(ops) == 2:
+        mn, ops = 'pclmulqdq', ops + [('imm', {'lql': 0x00, 'hql': 0x01, 'lqh': 0x10, 'hqh': 0x11}[m.group(1)])]
     if mn == 'xchg' and len(ops) == 2 and ops[0] == ops[1] and ops[0] in (('reg', 'eax'), ('reg', 'ax')):
         mn, ops = 'nop', []
     if mn in ('jmp', 'call') and len(ops) == 1 and (ops[0][0] == 'far' or (ops[0][0] == 'mem' and ops[0][1] == 48)):
@@ -431,6 +443,10 @@ def compare_nf(a, b, width_hint=None):
                 # a printed default segment is the same operand as no segment
                 defseg = 'ss' if bx in ('ebp', 'esp', 'bp') else 'ds'
                 if (gx or defseg) != (gy or defseg):
+                    # 3E in front of an indirect jmp/call is both the no-track prefix and (outside 64-bit mode) still the DS
+                    # override; objdump prints only "notrack": a printed ds next to notrack is not a difference
+                    if 'notrack' in a.pfx + b.pfx and {gx or None, gy or None} == {'ds', None}:
+                        continue
                     return 'op%d.segment' % i
     return None
 
